@@ -1,11 +1,38 @@
 (* C11 driver: one case per line on stdin, one result line on stdout, same format as the harness.
-   bs <bits> <len> <raw> <step>...   raw = nil | - | d1,d2,..  (decimal uint64)
+   bs <bits> <len> <raw> <step>...   raw = nil | - | h1,h2,..  (hexadecimal uint64)
      steps  g:i  s:i:v  w:i:v  r  l  W  R:<hex>  F:<bits>
    size <bits> <len> | bpv <len> <longs> | pack <b> <vals> | unpack <b> <n> <raw> | spec <b> <vals> <aop>... *)
+(* uint64 words travel in hexadecimal (linear-time conversion to and from the extracted N) *)
+let n_of_hex (s : string) : n =
+  let acc = ref None in
+  String.iter (fun ch ->
+    let d = match ch with
+      | '0'..'9' -> Char.code ch - 48 | 'a'..'f' -> Char.code ch - 87 | 'A'..'F' -> Char.code ch - 55
+      | _ -> failwith "hex" in
+    for k = 3 downto 0 do
+      let bit = (d lsr k) land 1 = 1 in
+      acc := (match !acc with
+              | None -> if bit then Some XH else None
+              | Some p -> Some (if bit then XI p else XO p))
+    done) s;
+  match !acc with None -> N0 | Some p -> Npos p
+let hex_of_n (x : n) : string =
+  match x with
+  | N0 -> "0"
+  | Npos p ->
+      let rec bits p acc = match p with XH -> 1 :: acc | XO q -> bits q (0 :: acc) | XI q -> bits q (1 :: acc) in
+      let bs = bits p [] in                      (* most significant first *)
+      let pad = (4 - List.length bs mod 4) mod 4 in
+      let bs = List.init pad (fun _ -> 0) @ bs in
+      let b = Buffer.create 16 in
+      let rec go = function
+        | a :: c :: d :: e :: t -> Buffer.add_char b "0123456789abcdef".[a*8 + c*4 + d*2 + e]; go t
+        | _ -> () in
+      go bs; Buffer.contents b
 let nlist_of (s : string) : n list =
-  if s = "-" || s = "nil" then [] else List.map n_of_dec (String.split_on_char ',' s)
+  if s = "-" || s = "nil" then [] else List.map n_of_hex (String.split_on_char ',' s)
 let str_of_nlist (l : n list) : string =
-  if l = [] then "-" else String.concat "," (List.map dec_of_n l)
+  if l = [] then "-" else String.concat "," (List.map hex_of_n l)
 let rec nat_of_int (i : int) : nat = if i <= 0 then O else S (nat_of_int (i - 1))
 let show_out (tag : string) (o : outcome) : string =
   match o with
